@@ -1,6 +1,6 @@
 (* C16 — Relative JSON Pointers are parsed, printed and applied per the draft.
    Statements only; proofs live in proofs/RelPointerProofs.v. *)
-From JP Require Import Base Json PyStr Pointer RelPointer Rfc6901 RelPtrDraft PointerDomain RelPointerProofs.
+From JP Require Import Base Json PyStr Pointer RelPointer Rfc6901 RelPtrDraft PointerDomain RelPointerProofs RelPtrTotal.
 
 Definition mode_ok (mode : bool) (s : ustr) : Prop := mode = false \/ no_backslash s = true.
 
@@ -37,6 +37,52 @@ Theorem C16_apply :
     end.
 Proof. exact RelPointerProofs.apply_spec. Qed.
 Print Assumptions C16_apply.
+
+(* the draft grammar is inhabited by EVERY abstract relative pointer with non-negative steps:
+   the hypothesis `draft_parse r = Some rel` of C16_parse_print is satisfiable for every rel *)
+Theorem C16_grammar_inhabited :
+  forall rel : drel, (0 <= d_steps rel)%Z -> draft_parse (draft_print rel) = Some rel.
+Proof. exact RelPtrTotal.draft_parse_print. Qed.
+Print Assumptions C16_grammar_inhabited.
+
+(* hence, with no hypothesis about text at all: every abstract relative pointer has a text that the
+   model (plain RFC 6901 mode) parses to it and prints back *)
+Theorem C16_every_relative_pointer_has_a_text :
+  forall rel : drel, (0 <= d_steps rel)%Z -> suffix_within_limits rel = true ->
+    exists rp, rel_parse false (draft_print rel) = Ok rp /\ to_text rp = draft_print rel /\ rel_agrees rp rel.
+Proof.
+  intros rel Hs Hl.
+  exact (C16_parse_print false (draft_print rel) rel (RelPtrTotal.draft_parse_print rel Hs) (or_introl eq_refl) Hl).
+Qed.
+Print Assumptions C16_every_relative_pointer_has_a_text.
+
+(* the draft's own sanity laws, transferred to the model by C16_apply: going up k levels and back
+   down along the removed tokens is the identity; more steps than the base has tokens is refused *)
+Theorem C16_up_then_down :
+  forall (rp : relptr) (base : pointer) (k : nat),
+    (k <= length (tokens base))%nat ->
+    rel_agrees rp (mkDRel (Z.of_nat k) 0%Z (DPtr (skipn (length (tokens base) - k) (tokens base)))) ->
+    exists q, to_ rp base = Ok q /\ tokens q = tokens base.
+Proof.
+  intros rp base k Hk Hag.
+  pose proof (C16_apply rp _ base Hag) as H.
+  rewrite (RelPtrTotal.up_then_down_identity (tokens base) k Hk) in H.
+  apply H. unfold offset_applicable. reflexivity.
+Qed.
+Print Assumptions C16_up_then_down.
+
+Theorem C16_beyond_base_refused :
+  forall (rp : relptr) (rel : drel) (base : pointer),
+    rel_agrees rp rel -> offset_applicable rel (tokens base) = true ->
+    (Z.of_nat (length (tokens base)) < d_steps rel)%Z ->
+    exists k, to_ rp base = Err (ERelPointer k).
+Proof.
+  intros rp rel base Hag Hoff Hlt.
+  pose proof (C16_apply rp rel base Hag Hoff) as H.
+  destruct rel as [st off sfx]. cbn [d_steps] in Hlt.
+  rewrite (RelPtrTotal.beyond_base_forbidden (tokens base) st off sfx Hlt) in H. exact H.
+Qed.
+Print Assumptions C16_beyond_base_refused.
 
 Example C16_example :
   let r := [49; 43; 49; 48; 47; 120]%N in                             (* 1+10/x *)
